@@ -36,10 +36,11 @@ from .vloop import VLoop
 
 SDL = """
 interface Node { id: ID }
-type Obj implements Node { id: ID x: Int y: Int! o: Obj l: [Obj] }
-type Other implements Node { id: ID z: Int }
+interface Named { id: ID }
+type Obj implements Node & Named { id: ID x: Int y: Int! o: Obj l: [Obj] who: Named }
+type Other implements Node & Named { id: ID z: Int }
 union U = Obj | Other
-type Query { a: Int b: Int c: Int! o: Obj n: Obj! l: [Obj] ln: [Obj!] i: Node u: [U] s(v: Int = 7): Int ev: Obj tick(step: Int = 1): Int nums: [Int] w: Int el: [Obj] r(q: Int!): Int things: [Node] }
+type Query { a: Int b: Int c: Int! o: Obj n: Obj! l: [Obj] ln: [Obj!] i: Node u: [U] s(v: Int = 7): Int ev: Obj tick(step: Int = 1): Int nums: [Int] w: Int el: [Obj] r(q: Int!): Int things: [Named] }
 type Mutation { m1: Obj m2: Obj m3: Int m4: [Obj] m5: Int! }
 type Subscription { ev: Obj tick(step: Int = 1): Int }
 """
@@ -53,13 +54,24 @@ type Subscription { ev: Obj }
 """
 SDLS = {"full": SDL, "single": SDL_SINGLE}
 
+class Thing:
+    """an object (not a dict) whose concrete type is an INSTANCE attribute: default type resolution must look
+    at the instance, not at its class"""
+
+    def __init__(self, typename, **kw):
+        self.__typename__ = typename
+        self.__dict__.update(kw)
+
+
+THINGS = [Thing("Obj", id="t1", x=1, y=2), Thing("Other", id="t2", z=3), Thing("Obj", id="t3", x=4, y=5), Thing("Other", id="t4", z=6)]
+
 OBJ3 = {"__typename__": "Obj", "id": "3", "x": 30, "y": 31, "o": None, "l": []}
 OBJ2 = {"__typename__": "Obj", "id": "2", "x": 20, "y": 21, "o": OBJ3, "l": [OBJ3]}
 OBJ1 = {"__typename__": "Obj", "id": "1", "x": 10, "y": 11, "o": OBJ2, "l": [OBJ2, OBJ3]}
 OTHER = {"__typename__": "Other", "id": "9", "z": 90}
 ROOT = {
     "a": 1, "b": 2, "c": 3, "o": OBJ1, "n": OBJ1, "l": [OBJ1, OBJ2], "ln": [OBJ1, OBJ2],
-    "i": OBJ1, "u": [OBJ1, OTHER], "s": 5, "nums": [1, 2, 3], "w": 4, "el": [], "r": 6,
+    "i": OBJ1, "u": [OBJ1, OTHER], "s": 5, "nums": [1, 2, 3], "w": 4, "el": [], "r": 6, "things": THINGS,
     "m1": OBJ1, "m2": OBJ2, "m3": 3, "m4": [OBJ1, OBJ2], "m5": 5,
 }
 
@@ -182,6 +194,22 @@ def _mk_nested_async(coord):
     return resolver
 
 
+def _mk_submit(coord):
+    """a plain resolver that hands its work to the runtime with KEYWORD arguments (info.runtime.submit(fn, k=v))"""
+
+    def resolver(parent, ctx, info, **args):
+        p = pstr(info.path)
+        ctx.ev("invoke", p)
+
+        def task(parent=None, world=None, rinfo=None, rargs=None):
+            return _outcome(world, rinfo, parent, rargs)
+
+        return info.runtime.submit(task, parent=parent, world=ctx, rinfo=info, rargs=args)
+
+    resolver.__name__ = "submit_" + coord.replace(".", "_")
+    return resolver
+
+
 def _shared_sync(parent, ctx, info, **args):
     """one function object registered on several fields (resolver caches are keyed by the function)"""
     ctx.ev("invoke", pstr(info.path))
@@ -205,7 +233,9 @@ def schema_for(custom, asyncio_styles, sdl="full"):
         for coord in sorted(custom):
             style = custom[coord]
             t, f = coord.split(".")
-            if style == "shared":
+            if style == "submit":
+                fn = _mk_submit(coord)
+            elif style == "shared":
                 fn = _shared_sync
             elif style == "shared-async":
                 fn = _shared_async if asyncio_styles else _shared_sync
@@ -226,6 +256,36 @@ def _resolve_type(value, ctx, info):
     if getattr(ctx, "overrides", None) and ctx.overrides.get(pstr(info.path)) == "type-err":
         raise ResolverError("T@" + pstr(info.path))
     return value.get("__typename__") if isinstance(value, dict) else None
+
+
+class RootMethods:
+    """a root value whose fields are METHODS: the library's default resolver calls them, so the top-level fields
+    have no explicit resolver at all, yet their results are deferred where the runtime defers"""
+
+    def __init__(self, world):
+        self._w = world
+
+    def __getattr__(self, name):
+        if name.startswith("_") or name not in ROOT:
+            raise AttributeError(name)
+        world = self._w
+
+        def method(ctx, info, **args):
+            p = pstr(info.path)
+            world.ev("invoke", p)
+            rt = info.runtime
+            thunk = lambda: _outcome(world, info, ROOT, args)  # noqa
+            if isinstance(rt, ThreadPoolRuntime):
+                thunk.vlabel = "method:" + p
+                return rt.submit(thunk)
+            if isinstance(rt, AsyncIORuntime):
+                async def co():
+                    return await world.loop.defer("method:" + p, thunk)
+
+                return co()
+            return thunk()
+
+        return method
 
 
 class RecInstr(Instrumentation):
@@ -336,7 +396,7 @@ def run_config(config, scn, ch, document=None, fast=False):
     kwargs = dict(
         variables=scn.get("variables"),
         operation_name=scn.get("operation_name"),
-        root=ROOT,
+        root=RootMethods(world) if scn.get("root") == "methods" else ROOT,
         context=world,
     )
     k, m = scn.get("instr", 0), scn.get("mw", 0)
@@ -390,6 +450,7 @@ def run_config(config, scn, ch, document=None, fast=False):
     elif config == "threadpool":
         schema = schema_for(custom, False, scn.get("sdl", "full"))
         pool = CtlPool()
+        pool.ch = ch  # a submitted job may also finish before the submitting code continues (one deviation)
         rt = ThreadPoolRuntime(max_workers=1)
         rt._inner.shutdown(wait=False)
         rt._inner = pool
